@@ -79,6 +79,23 @@ def degenerate_ranges(rng, w):
     return styles
 
 
+def sloppy_rotation_matrices(rng, w):
+    """rotation matrices written with two to four decimals (as people type them): finite, but not orthonormal, so that the derived
+    quaternions are not of unit length"""
+    def walk(o):
+        if isinstance(o, dict):
+            for k, v in o.items():
+                if k in ('rotation matrices', 'basis rotation matrices') and isinstance(v, list):
+                    nd = rng.choice([2, 3, 3, 4])
+                    o[k] = [[[round(x, nd) for x in row] for row in m] for m in v]
+                else:
+                    walk(v)
+        elif isinstance(o, list):
+            for v in o:
+                walk(v)
+    walk(w['json'])
+
+
 def ridge_through_footprint(rng, w):
     """oceanic plates with a ridge model: put the ridge through the footprint (a straight line through the centre, or a polyline with a
     vertex at the centre), so that points exactly on the ridge axis (age zero) are inside the plate"""
@@ -216,7 +233,7 @@ def main(tier, seed, replay):
     rng = random.Random(seed * 4447 + 13)
     V = core.Verdict(PID, tier, seed)
     V.coverage['rule'] = ('generated worlds with finite parameters (all feature/model types, both systems) and corpus worlds queried (3D and 2D, full property lists) at a catalogue of degenerate locations derived from '
-                          'the truth record: polygon vertices and edge midpoints, feature min/max depths exactly and their floating point neighbours, the own min/max depth exactly and its neighbours (half of the worlds have model ranges rewritten to touch the range of the feature in one depth: starting where the feature ends, ending where it starts, without extent, two layers meeting at one depth, a max depth surface reaching the min depth of the model at one listed point), plume centres/rims/tip, points exactly on a ridge axis (ridges rewritten to pass through the plate) at depth zero and the top of the model, trench coordinates, points on the trench line and '
+                          'the truth record: polygon vertices and edge midpoints, feature min/max depths exactly and their floating point neighbours, the own min/max depth exactly and its neighbours (half of the worlds have model ranges rewritten to touch the range of the feature in one depth: starting where the feature ends, ending where it starts, without extent, two layers meeting at one depth, a max depth surface reaching the min depth of the model at one listed point), plume centres/rims/tip, points exactly on a ridge axis (ridges rewritten to pass through the plate) at depth zero and the top of the model, rotation matrices written with 2-4 decimals (a quarter of the worlds), trench coordinates, points on the trench line and '
                           'below it, slab surface and tip, dip point, poles, the date line with both signs of zero, the planet centre, cartesian surface heights at/below the min depth, random points (thorough: magnitudes '
                           'up to 1e12): every answer finite or a std::exception, no sanitizer report, signal or hang; non-trivial = catalogue points on a degenerate locus')
     quick = tier == 'quick'
@@ -224,11 +241,13 @@ def main(tier, seed, replay):
     jobs = []
     for i in range(n_gen):
         wrng = random.Random(rng.getrandbits(48))
-        w = wg.gen_world(wrng, {'nfeatures': (1, 5), 'p_grains': 0.5, 'p_velocity': 0.5})
+        w = wg.gen_world(wrng, {'nfeatures': (1, 5), 'p_grains': 0.6 if i % 4 == 0 else 0.5, 'p_velocity': 0.5})
         if i % 2 == 1:
             degenerate_ranges(wrng, w)
         if i % 3 != 0:
             ridge_through_footprint(wrng, w)
+        if i % 4 == 0:
+            sloppy_rotation_matrices(wrng, w)
         fn = 'w%d.wb' % i
         c = core.Case('w%d' % i, files={fn: wg.dumps(w['json'])})
         world(c, 1, core.workfile(PID, fn))
